@@ -10,7 +10,7 @@ from __future__ import annotations
 import io
 import struct
 
-from vf import contracts, core
+from vf import contracts, core, repotests
 from vf.ref import config as C
 from vf.ref import payload as P
 from vf.ref import tlv
@@ -88,6 +88,9 @@ def build_payload(case_rng, par):
 
 
 def check_case(case, ctx):
+    if case.get("op") == "repo_test":
+        repotests.run(ctx, ['tests/test_guardrails.py'], [contracts.install_guardrails], {"guardrails.checksum_gate": "guardrails.checksum_gate"})
+        return
     from dissect.cobaltstrike import beacon
 
     contracts.install_guardrails()
@@ -226,6 +229,7 @@ def plan(tier, seed):
         shards.append({"kind": "positive", "part": i, "parts": 12, "n": 22 if q else 1300})
     for i in range(4):
         shards.append({"kind": "negative", "n": 18 if q else 1200})
+    shards.append({"kind": "repo_tests"})
     for s in shards:
         s["budget_s"] = 55 if q else 3000
         s["timeout_s"] = 400 if q else 7200
@@ -233,6 +237,9 @@ def plan(tier, seed):
 
 
 def run_shard(shard, ctx):
+    if shard["kind"] == "repo_tests":
+        repotests.run(ctx, ['tests/test_guardrails.py'], [contracts.install_guardrails], {"guardrails.checksum_gate": "guardrails.checksum_gate"})
+        return
     rng = ctx.rng
     if shard["kind"] == "positive":
         lens = list(range(2, 257))[shard["part"] :: shard["parts"]]
